@@ -233,7 +233,7 @@ pub fn case(t: &mut Tape, ctx: &CaseCtx) -> CaseResult {
 
 pub fn run(mut run: Run) -> i32 {
     run.replay_committed(&case);
-    run.random("schedules", &[], run.n(100_000, 2_000_000), 400, &case);
+    run.random("schedules", &[], run.n(250_000, 2_500_000), 400, &case);
     run.finish(
         RULE,
         200,
